@@ -313,7 +313,7 @@ impl Property for C08 {
     }
 
     fn budget(tier: Tier) -> u64 {
-        tier.pick(1600, 16_000)
+        tier.pick(1600, 9000)
     }
 
     fn shrink_iters(_tier: Tier) -> Option<u32> {
@@ -628,7 +628,7 @@ impl Property for C09 {
     }
 
     fn budget(tier: Tier) -> u64 {
-        tier.pick(3200, 60_000)
+        tier.pick(3200, 36_000)
     }
 
     fn shrink_iters(_tier: Tier) -> Option<u32> {
@@ -908,7 +908,7 @@ impl Property for C10 {
     }
 
     fn budget(tier: Tier) -> u64 {
-        tier.pick(2400, 40_000)
+        tier.pick(2400, 14_000)
     }
 
     fn shrink_iters(_tier: Tier) -> Option<u32> {
